@@ -54,8 +54,6 @@ def is_name(node, name):
     return isinstance(node, ast.Name) and node.id == name
 
 
-def is_attr(node, base, attr):
-    return isinstance(node, ast.Attribute) and node.attr == attr and is_name(node.value, base)
 
 
 def const_str(node):
@@ -64,8 +62,6 @@ def const_str(node):
     return None
 
 
-def names_in(node):
-    return {n.id for n in ast.walk(node) if isinstance(n, ast.Name)}
 
 
 def assignments_to(fnode, name, own=True):
@@ -269,14 +265,6 @@ def require_func(ctx, qual):
     return f
 
 
-def compare_ops(node):
-    """[(left, op, right)] for each link of a Compare chain."""
-    out = []
-    left = node.left
-    for op, right in zip(node.ops, node.comparators):
-        out.append((left, op, right))
-        left = right
-    return out
 
 
 def guards_of(node, fnode):
@@ -339,12 +327,6 @@ def closure(ctx, func, depth=3, include_nested=True, private_only=True):
     return out
 
 
-def walk_closure(funcs, types=None):
-    """(func, node) over the own bodies of the given functions."""
-    for f in funcs:
-        for n in walk_own(f.node):
-            if types is None or isinstance(n, types):
-                yield f, n
 
 
 def resolve_name(node, func):
@@ -366,47 +348,3 @@ def resolve_name(node, func):
     return node
 
 
-def flat_guards(node, fnode, func=None):
-    """Guards of a node as a sorted list of atom strings: nested ifs and
-    `and`-chains are flattened, `not` is kept as a prefix.  With `func` the
-    guards are the CFG path conditions (early exits count), plus enclosing
-    conditional expressions."""
-    out = []
-
-    def add(t, pol):
-        if isinstance(t, ast.BoolOp) and isinstance(t.op, ast.And) and pol:
-            for v in t.values:
-                add(v, True)
-        elif isinstance(t, ast.BoolOp) and isinstance(t.op, ast.Or) and not pol:
-            for v in t.values:
-                add(v, False)
-        elif isinstance(t, ast.UnaryOp) and isinstance(t.op, ast.Not):
-            add(t.operand, not pol)
-        else:
-            out.append(("" if pol else "not ") + norm(t))
-    if func is not None:
-        from .cfg import cfg_of
-        cfg = cfg_of(func)
-        cn = cfg.node_for(node)
-        conds = cfg.conditions(cn.id) if cn is not None else []
-        for t, pol in conds:
-            add(t, pol)
-        child = node
-        for p in parents(node):
-            if isinstance(p, ast.stmt):
-                break
-            if isinstance(p, ast.IfExp):
-                if child is p.body:
-                    add(p.test, True)
-                elif child is p.orelse:
-                    add(p.test, False)
-            elif isinstance(p, ast.BoolOp) and isinstance(p.op, ast.And):
-                for v in p.values:
-                    if v is child or any(child is x for x in ast.walk(v)):
-                        break
-                    add(v, True)
-            child = p
-        return sorted(set(out))
-    for t, pol in guards_of(node, fnode):
-        add(t, pol)
-    return sorted(out)
